@@ -2,29 +2,35 @@ package c11
 
 import (
 	"fmt"
+	"sort"
+	"strings"
 	"testing"
 
-	zed "github.com/brimdata/super"
-	"github.com/brimdata/super/zcode"
-	"verif/gen"
-	"verif/oracle"
+	"pgregory.net/rapid"
 )
 
 func TestProbe(t *testing.T) {
-	seq := gen.SeqFromZSON("1 2 3")
-	b, _ := encode("vng", seq.Vals, wopts{})
-	meta, data, _ := vngMeta(b)
-	for _, tv := range [][]byte{{30, 0x80, 0x80, 0x80, 0x08}, {30, 0xa1, 0x8d, 0x06}} {
-		n := 0
-		edited := oracle.MapLeaves(meta, func(typ zed.Type, body zcode.Bytes) zcode.Bytes {
-			if typ.ID() == zed.IDType {
-				n++
-				return append(zcode.Bytes{}, tv...)
+	counts := map[string]int{}
+	nv, ne := 0, 0
+	rapid.Check(t, func(rt *rapid.T) {
+		c := genBytes(rt)
+		if c.Format == "vng" {
+			nv++
+		}
+		for _, e := range c.Edits {
+			if strings.HasPrefix(e, "metatype:") {
+				ne++
+				counts[e[strings.Index(e, "=")+1:]]++
 			}
-			return body
-		})
-		out, _ := vngAssemble(edited, data)
-		o := runBytes(Case{Kind: "bytes", Format: "vng", Base: out, Threads: 1, Origin: "gen:x", Edits: []string{"metatype:x"}})
-		fmt.Printf("tv=%x typeleaves=%d fail=%v known=%v labels=%v\n", tv, n, o.Fail, o.Known, o.Labels)
+		}
+	})
+	var ks []string
+	for k := range counts {
+		ks = append(ks, k)
 	}
+	sort.Strings(ks)
+	for _, k := range ks {
+		fmt.Printf("%-30s %d\n", k, counts[k])
+	}
+	fmt.Println("vng cases", nv, "type edits", ne)
 }
